@@ -1,5 +1,6 @@
 import Ptk.Proto
 import Ptk.Model.C12
+import Ptk.Model.C12Orig
 open Ptk Ptk.Proto Ptk.C12
 
 /-- `N` or a natural number -/
@@ -90,7 +91,7 @@ instance : Inhabited Outcome := ⟨.hang⟩
     answer found is the answer for every larger fuel; the cap only protects the driver. -/
 partial def untilAnswer (f : Nat → Outcome) (fuel : Nat) : Outcome :=
   match f fuel with
-  | .hang => if fuel > 2 ^ 44 then .hang else untilAnswer f (2 * fuel)
+  | .hang => if fuel > 2 ^ 26 then .hang else untilAnswer f (2 * fuel)
   | r => r
 
 def runDivide (r : Req) (avail : Nat) (done : Bool) : Outcome :=
@@ -98,6 +99,18 @@ def runDivide (r : Req) (avail : Nat) (done : Bool) : Outcome :=
   untilAnswer (fun fuel =>
     if r.horizontal then divideH fuel r.al r.filler r.pad r.children avail done
     else divideV fuel r.al r.filler r.pad r.children avail) (fuelFor all avail)
+
+/-- the pre-fix algorithm (`Ptk.Model.C12Orig`) on the same request; only meaningful — and only
+    asked for by the harness — when every weight is positive, where
+    `Ptk.Props.C12Orig.fix_preserves_positive` says it must agree with the fixed code -/
+def runDivideOrig (r : Req) (avail : Nat) (done : Bool) : String :=
+  let all := allChildren r.al r.filler r.pad r.children
+  if all.any (·.weight == 0) then "n/a"
+  else if r.horizontal then
+    if r.children.isEmpty then encOutcome (.ok [])
+    else encOutcome (untilAnswer (fun fuel => divideOrig fuel all avail (!done)) (fuelFor all avail))
+  else if all.isEmpty then encOutcome (.ok [])
+  else encOutcome (untilAnswer (fun fuel => divideOrig fuel all avail true) (fuelFor all avail))
 
 def runLayout (r : Req) (x y w h : Nat) (done : Bool) : String :=
   if !r.horizontal && r.children.isEmpty then "nothing"
@@ -150,6 +163,11 @@ def handle : List String → String
   | "div" :: dir :: al :: done :: avail :: rest =>
     match decBool done, decNat avail, decReq dir al rest with
     | some done, some avail, some (some r, []) => encOutcome (runDivide r avail done)
+    | some _, some _, some (none, []) => "err:ValueError"
+    | _, _, _ => "bad-op"
+  | "odiv" :: dir :: al :: done :: avail :: rest =>
+    match decBool done, decNat avail, decReq dir al rest with
+    | some done, some avail, some (some r, []) => runDivideOrig r avail done
     | some _, some _, some (none, []) => "err:ValueError"
     | _, _, _ => "bad-op"
   | "lay" :: dir :: al :: done :: x :: y :: w :: h :: rest =>
